@@ -55,4 +55,4 @@ def gen_shape(rng, rank, max_elems=512):
             return shape
 
 
-ELTYPES = [("i8", 1), ("i16", 2), ("i32", 4), ("i64", 8)]
+ELTYPES = [("i8", 1), ("i16", 2), ("i32", 4), ("i64", 8), ("i1", 1), ("i4", 1), ("i12", 2)]
